@@ -24,6 +24,7 @@ Inductive sync_class : Type :=
 | K_found_not_replaced       (* REPLACE fails: FunctionDef targets are never replaced *)
 | K_not_found_but_present    (* FIND fails on a target: the definition exists but is not found; a copy is appended *)
 | K_dotted_written_top_level (* a method target that is created/appended lands at module level, so FIX fails *)
+| K_module_docstring_reindented (* RENDER_PARSE fails on the module docstring: ast_parse re-indents it on read, so a whole-module rewrite changes that statement *)
 | K_written_compares_unequal. (* FIX fails: what sync wrote is found but never compares equal (docstring re-indent) *)
 
 Definition sync_class_name (k : sync_class) : str :=
@@ -32,8 +33,16 @@ Definition sync_class_name (k : sync_class) : str :=
   | K_found_not_replaced => L "found-definition-not-replaced"
   | K_not_found_but_present => L "present-definition-not-found"
   | K_dotted_written_top_level => L "method-target-written-at-module-level"
+  | K_module_docstring_reindented => L "module-docstring-reindented"
   | K_written_compares_unequal => L "written-definition-compares-unequal"
   end.
+
+(* C11: a difference confined to the module docstring statement of a file rewritten as a whole is the
+   RENDER_PARSE law failing on docstrings; any other difference is attributed to the target's class *)
+Definition classify_frame (only_module_docstring_differs whole_module_rewrite : bool)
+           (target_class : option sync_class) : option sync_class :=
+  if only_module_docstring_differs && whole_module_rewrite then Some K_module_docstring_reindented
+  else target_class.
 
 (* classification of one target from its call in run 0 and (if any) its call in run 1 *)
 Definition classify_target (dotted : bool) (c0 : call_obs) (c1 : option call_obs) : option sync_class :=
@@ -74,6 +83,17 @@ Definition run_syncspec (fn : sexp) (args : list sexp) : option sexp :=
       | Some d, Some c0, Some c1 =>
         Some (enc_option (fun k => enc_str (sync_class_name k)) (classify_target d c0 c1))
       | _, _, _ => None
+      end
+    | _ => None
+    end
+  else if is_sym "frame_class" fn then
+    match args with
+    | [od; wm; d; c0; c1] =>
+      match dec_bool od, dec_bool wm, dec_bool d, dec_obs c0, dec_option dec_obs c1 with
+      | Some od, Some wm, Some d, Some c0, Some c1 =>
+        Some (enc_option (fun k => enc_str (sync_class_name k))
+                         (classify_frame od wm (classify_target d c0 c1)))
+      | _, _, _, _, _ => None
       end
     | _ => None
     end
